@@ -294,8 +294,12 @@ fn anchors() -> Vec<U512> {
     v.sort(); v.dedup(); v
 }
 
-const EXPS: [&str; 24] = ["", "e0", "e1", "E+1", "e-1", "e18", "e-18", "e19", "e-19", "e37", "e38", "e39", "e-40", "e005", "e+05", "e-007", "e00",
-    "e0000000000000000000001", "e99999999999999999999", "e-99999999999999999999", "e+", "e-", "e", "E1e1"];
+const EXPS: [&str; 44] = ["", "e0", "e1", "E+1", "e-1", "e18", "e-18", "e19", "e-19", "e37", "e38", "e39", "e-40", "e005", "e+05", "e-007", "e00",
+    "e0000000000000000000001", "e99999999999999999999", "e-99999999999999999999", "e+", "e-", "e", "E1e1",
+    // exponents next to the points where a truncating cast wraps (u8, u16, i32, u32, i64, u64): a wrapped exponent
+    // looks like a small, valid one
+    "e256", "e257", "e-256", "e65536", "e65537", "e2147483648", "e-2147483648", "e4294967296", "e4294967297", "e4294967314", "e4294967334", "e-4294967296", "e-4294967297",
+    "e8589934592", "e9223372036854775808", "e18446744073709551616", "e18446744073709551617", "e-18446744073709551616", "e18446744073709551634", "e340282366920938463463374607431768211456"];
 
 pub fn run(tier: Tier) -> i32 {
     let run = Run::new("C06", tier);
